@@ -21,15 +21,16 @@ import pyast, progen
 import c05_real, c05_gen, c05_instr
 
 MODEL_FILES = ['MaltModel/Py/Trace.lean', 'MaltModel/Cfg/Builder.lean', 'MaltModel/Cfg/AstToCfg.lean',
-               'MaltModel/Cfg/Check.lean', 'MaltModel/Proofs/C05Wf.lean', 'MaltModel/Proofs/C05Proj.lean', 'MaltModel/Proofs/C05Check.lean',
-               'MaltModel/Proofs/C05Paths.lean', 'MaltModel/Drv/C05.lean']
+               'MaltModel/Cfg/Check.lean', 'MaltModel/Proofs/C05Proj.lean', 'MaltModel/Proofs/C05Check.lean',
+               'MaltModel/Proofs/C05Frame.lean', 'MaltModel/Proofs/C05Paths2.lean', 'MaltModel/Proofs/C05Wf.lean',
+               'MaltModel/Drv/C05.lean']
 
 CLS_JUMP = 'jump_in_handler_of_try_with_finally'
 
 TIERS = {
     # exhaustive sub-space, sampled space, cap on the sampled space, decision-vector bounds
     'quick': dict(exh=(4, 3, False), big=(5, 3, True), cap=80000, dec_len=7, dec_runs=48, progen_skel=150, progen_rand=60),
-    'thorough': dict(exh=(5, 3, False), big=(7, 4, True), cap=1400000, dec_len=9, dec_runs=96, progen_skel=1500, progen_rand=600),
+    'thorough': dict(exh=(5, 3, False), big=(7, 4, True), cap=900000, dec_len=9, dec_runs=96, progen_skel=1500, progen_rand=600),
 }
 
 
@@ -108,6 +109,8 @@ def new_stats():
     return dict(programs=0, graphs=0, graph_equal=0, both_error=0, error_kinds={}, skipped_other=0,
                 runs=0, run_outcomes={}, runs_exhaustive=0, walk_equal=0, wf_ok=0, pc_ok=0, pc_rejected_expected=0,
                 nodes=0, edges=0, max_nodes=0, features={}, mirror_checked=0, nontrivial=0,
+                hyp={'supported': 0, 'finally_free_fragment': 0, 'distinct_keys': 0, 'no_jump_in_handler_of_try_with_finally': 0,
+                     'in_scope_of_C05_paths_partial': 0, 'covered_by_checker_only': 0},
                 fails=[], broken={})
 
 
@@ -183,6 +186,7 @@ def process(cases, driver_ok, execute, dec_len=0, dec_runs=0):
                                         'pred': 'path'})
         if driver_ok:
             lines.append('c05.graph ' + c.text); plan.append(('graph', c))
+            lines.append('c05.hyp ' + c.text); plan.append(('hyp', c))
             if not c.real.error:
                 for gid, g in sorted(c.real.graphs.items()):
                     lines.append('c05.wf ' + sexp(c05_real.graph_sexp(gid, g))); plan.append(('wf', c))
@@ -211,6 +215,18 @@ def process(cases, driver_ok, execute, dec_len=0, dec_runs=0):
                     broken(st, 'correspondence:c05.graph', json.dumps({'key': c.key, 'source': c.source, 'diff': d}))
                 else:
                     st['graph_equal'] += len(mg)
+            elif what == 'hyp':
+                sup, frag, dist, nojump = [v == 'True' for v in common.parse_sexp(ans)]
+                h = st['hyp']
+                h['supported'] += sup; h['finally_free_fragment'] += frag; h['distinct_keys'] += dist
+                h['no_jump_in_handler_of_try_with_finally'] += nojump
+                if sup and frag and dist and not c.real.error:
+                    h['in_scope_of_C05_paths_partial'] += 1
+                elif sup and not c.real.error:
+                    h['covered_by_checker_only'] += 1
+                # the key-distinctness hypothesis may fail only where the real builder itself fails
+                if not dist and not c.real.error:
+                    broken(st, 'hypothesis:fnDistinctKeys', json.dumps({'key': c.key, 'source': c.source}))
             elif what == 'wf':
                 if ans == 'True':
                     st['wf_ok'] += 1
@@ -415,12 +431,15 @@ def check(run):
     run.cov['exhaustive'] = all(s['exhaustive'] for s in spaces)
     run.cov['totals'] = {k: total[k] for k in ('programs', 'graphs', 'graph_equal', 'both_error', 'runs', 'run_outcomes', 'walk_equal',
                                                'wf_ok', 'pc_ok', 'pc_rejected_expected', 'mirror_checked', 'nodes', 'edges', 'max_nodes')}
+    run.cov['hypotheses_on_explored_programs'] = total['hyp']
+    run.cov['error_kinds_of_real_builder'] = total['error_kinds']
     run.cov['constructs'] = dict(sorted(total['features'].items(), key=lambda kv: -kv[1])[:40])
     run.cov['decision_bounds'] = {'max_len': cfg['dec_len'], 'max_runs_per_program': cfg['dec_runs']}
 
     # ---- obligations from the accumulated statistics
     if run.driver_ok:
-        names = ['correspondence:c05.graph', 'correspondence:c05.walk', 'checker:wellFormed', 'checker:pathCheck']
+        names = ['correspondence:c05.graph', 'correspondence:c05.walk', 'checker:wellFormed', 'checker:pathCheck',
+                 'hypothesis:fnDistinctKeys']
         for nme in names:
             det = total['broken'].get(nme, [])
             run.oblige(nme, nme.split(':')[0], not det, '\n'.join(det[:3]))
